@@ -7,6 +7,14 @@ fn main() {
         std::process::exit(2);
     }
     let prop = args[1].clone();
+    if prop == "kernel-replay" {
+        let spec: serde_json::Value = serde_json::from_str(&args[2]).expect("harness spec");
+        let a: u128 = args[3].parse().unwrap();
+        let b: u128 = args[4].parse().unwrap();
+        pverif::panics::install();
+        println!("{}", pverif::c06::kernel_replay(&spec, a, b));
+        return;
+    }
     if prop == "dbg-sys" {
         // pverif dbg-sys <stream> <index>
         let seed = pverif::rng::seed_from_env();
@@ -64,6 +72,7 @@ fn main() {
         "C03" => pverif::c03::run(tier, seed, replay),
         "C04" => pverif::c04::run(tier, seed, replay),
         "C05" => pverif::c05::run(tier, seed, replay),
+        "C06" => pverif::c06::run(tier, seed, replay),
         "C08" => pverif::c08::run(tier, seed, replay),
         "C09" => pverif::c09::run(tier, seed, replay),
         "C10" => pverif::c10::run(tier, seed, replay),
